@@ -132,7 +132,7 @@ func (c *Ctx) checkMapRange(fn *ssa.Function, rg *ssa.Range, loops []*natLoop) {
 	inspect(fn, l.Blocks, 0)
 	if violated == "" {
 		// one level down: static callees invoked in the body
-		for b := range l.Blocks {
+		for _, b := range l.ordered() {
 			for _, ins := range b.Instrs {
 				if call, ok := ins.(ssa.CallInstruction); ok {
 					if sc := call.Common().StaticCallee(); sc != nil && sc.Blocks != nil && load.InScope(sc) {
